@@ -158,6 +158,7 @@ struct ClientCx {
     slots: Vec<Ent>,
     mail: Mail,
     joins: std::collections::VecDeque<hannibal::spawner::JoinFuture<P>>,
+    join_tasks: std::collections::VecDeque<simrt::RawJoin<Option<JoinVal>>>,
 }
 impl ClientCx {
     fn ent(&mut self, s: Slot) -> &mut Ent {
@@ -683,6 +684,20 @@ async fn exec(cx: &mut ClientCx, op: &Op) -> Res {
             }
             None => Res::Skipped,
         },
+        Op::JoinSpawn => match cx.joins.pop_front() {
+            Some(f) => {
+                cx.join_tasks.push_back(simrt::spawn(simrt::TaskKind::Client, async move { f.await.map(|p| p.join_val()) }));
+                Res::Ok
+            }
+            None => Res::Skipped,
+        },
+        Op::JoinCollect => match cx.join_tasks.pop_front() {
+            Some(mut t) => match std::future::poll_fn(|c| t.poll_join(c)).await {
+                Ok(v) => Res::Joined(v),
+                Err(_) => Res::Skipped,
+            },
+            None => Res::Skipped,
+        },
         Op::JoinDiscard => match cx.joins.pop_front() {
             Some(f) => {
                 drop(f);
@@ -988,7 +1003,7 @@ async fn exec(cx: &mut ClientCx, op: &Op) -> Res {
 }
 
 async fn client_main(id: u32, ops: Vec<Op>, mail: Mail) {
-    let mut cx = ClientCx { id, slots: Vec::new(), mail, joins: Default::default() };
+    let mut cx = ClientCx { id, slots: Vec::new(), mail, joins: Default::default(), join_tasks: Default::default() };
     for (idx, op) in ops.iter().enumerate() {
         let (hk, target) = resolve(&mut cx, op);
         log(Ev::OpBegin { client: id, idx: idx as u32, op: op.clone(), hk, target });
